@@ -184,6 +184,71 @@ Theorem C05_pending_fix_run_intact_untouched :
 Proof. exact run_fix_intact_untouched. Qed.
 Print Assumptions C05_pending_fix_run_intact_untouched.
 
+(* 4f. a file flagged DAMAGED: status:unrecoverable:<disk>:<file> is in the log, the file is renamed away (the model removes it
+       from its name), it is counted and the exit status fails *)
+Theorem C05_pending_fix_run_damaged_reported :
+  forall (hashf : bid -> N -> hval) (padz : bid -> N -> bool) (truncf : bid -> N -> bid) (bs : N) (nlev : nat)
+         (newino : nat -> N -> N) (now : Z) (o : copts) (c : content) (bm : nat) (fs : list (option fsdisk)) (par : parity) (objs : list obj),
+    plain nlev o -> co_fix o = true -> geom bs c bm -> c_blockmax c = bm ->
+    length fs = length (c_disks c) -> nlev <= length par -> objs_ok c objs ->
+    let out := check_run hashf padz truncf bs nlev false newino now o c par fs objs (seq 0 bm) in
+    forall p j f i b, slot_of c p j = SFile f i b -> fl_damaged (get_fl (r_flags (out_st out)) (j, cf_name f)) = true ->
+      fs_find (r_fs (out_st out)) j (cf_name f) = None /\ In (K_ST_UNREC, [N.of_nat j; cf_name f]) (r_tags (out_st out))
+      /\ r_unrec (out_st out) <> 0 /\ out_fail out = true.
+Proof. exact run_fix_damaged_reported. Qed.
+Print Assumptions C05_pending_fix_run_damaged_reported.
+
+(* 4g. collision freedom AT the recorded hashes (collision_free_blk: rb p j is the recorded block of the BLK / REP slot (p, j), it
+       hashes to the recorded hash, it is zero padded, and a block that hashes to the recorded hash of the slot is rb p j): every
+       block with a recorded hash, in ANY stripe -- also the stripes that hold pending changes -- is in a file flagged DAMAGED or
+       IS the recorded block *)
+Theorem C05_pending_fix_run_blk_exact :
+  forall (hashf : bid -> N -> hval) (padz : bid -> N -> bool) (truncf : bid -> N -> bid) (bs : N) (nlev : nat)
+         (newino : nat -> N -> N) (now : Z) (o : copts) (c : content) (bm : nat) (fs : list (option fsdisk)) (par : parity) (objs : list obj)
+         (rb : nat -> nat -> bid),
+    plain nlev o -> co_fix o = true -> geom bs c bm -> c_blockmax c = bm ->
+    length fs = length (c_disks c) -> nlev <= length par -> objs_ok c objs ->
+    collision_free_blk hashf padz bs c bm rb ->
+    let out := check_run hashf padz truncf bs nlev false newino now o c par fs objs (seq 0 bm) in
+    forall p j f i b, slot_of c p j = SFile f i b -> fb_state b <> SChg ->
+      fl_damaged (get_fl (r_flags (out_st out)) (j, cf_name f)) = true
+      \/ fblk (r_fs (out_st out)) j (cf_name f) i = rb p j.
+Proof. exact run_fix_blk_exact. Qed.
+Print Assumptions C05_pending_fix_run_blk_exact.
+
+(* 4h. THE PROPERTY on the model, full hash size, plain options, under PastHashInvAll and collision freedom at the recorded hashes:
+       whatever the block map (pending changes anywhere) and whatever the damage, after fix every file recorded in the content file
+       is EITHER reported unrecoverable (DAMAGED flag, status:unrecoverable line, renamed away, counted, failing exit status) OR left
+       under its name, not flagged, with
+         - at every block WITH a recorded hash (BLK; REP, whose hash is inherited from the source of the copy) exactly the
+           recorded block;
+         - at every CHG block -- a block WITHOUT a recorded hash: the content file only knows the past hash of what the parity
+           encoded there, the new data was never hashed, so "the recorded version" is not defined for it and "not the stale old
+           block" is the strongest statement the content file supports -- the block that was on the disk before the run, or a
+           rebuilt block that is not the block any parity level encoded at that position.
+       The exit status fails iff something is counted unrecoverable. *)
+Theorem C05_pending_fix_never_wrong :
+  forall (hashf : bid -> N -> hval) (padz : bid -> N -> bool) (truncf : bid -> N -> bid) (bs : N) (nlev : nat)
+         (newino : nat -> N -> N) (now : Z) (o : copts) (c : content) (bm : nat) (fs : list (option fsdisk)) (par : parity) (objs : list obj)
+         (rb : nat -> nat -> bid),
+    plain nlev o -> co_fix o = true -> geom bs c bm -> c_blockmax c = bm ->
+    length fs = length (c_disks c) -> nlev <= length par -> objs_ok c objs ->
+    PastHashInvAll hashf padz bs c par -> collision_free_blk hashf padz bs c bm rb ->
+    let out := check_run hashf padz truncf bs nlev false newino now o c par fs objs (seq 0 bm) in
+    (out_fail out = true <-> r_unrec (out_st out) <> 0)
+    /\ forall p j f i b, slot_of c p j = SFile f i b ->
+         (fl_damaged (get_fl (r_flags (out_st out)) (j, cf_name f)) = true
+          /\ fs_find (r_fs (out_st out)) j (cf_name f) = None /\ In (K_ST_UNREC, [N.of_nat j; cf_name f]) (r_tags (out_st out))
+          /\ r_unrec (out_st out) <> 0 /\ out_fail out = true)
+         \/ (fl_damaged (get_fl (r_flags (out_st out)) (j, cf_name f)) = false
+             /\ (fb_state b <> SChg -> fblk (r_fs (out_st out)) j (cf_name f) i = rb p j)
+             /\ (fb_state b = SChg ->
+                   fblk (r_fs (out_st out)) j (cf_name f) i = fblk fs j (cf_name f) i
+                   \/ exists x, fblk (r_fs (out_st out)) j (cf_name f) i = wbv padz truncf bs f i x
+                                /\ forall l v, nth p (nth l par []) PNone = PEnc v -> x <> vnth v j)).
+Proof. exact run_fix_never_wrong. Qed.
+Print Assumptions C05_pending_fix_never_wrong.
+
 (* 5. mixed arrays: the blocks of the entirely synced stripes *)
 Theorem C05_pending_fix_run_synced_stripes :
   forall (hashf : bid -> N -> hval) (padz : bid -> N -> bool) (truncf : bid -> N -> bid) (bs : N) (nlev : nat)
@@ -240,6 +305,24 @@ Example C05_pending_example_intact :
   fs_find (r_fs (out_st out)) 1 3%N = fs_find px_fs2 1 3%N /\ fl_damaged (get_fl (r_flags (out_st out)) (1, 3%N)) = false.
 Proof. exact px_fix_run_intact. Qed.
 Print Assumptions C05_pending_example_intact.
+Example C05_pending_example_collision_free_blk : collision_free_blk w_hashf w_padz 1024 px_c 2 px_rb.
+Proof. exact px_collision_free_blk. Qed.
+Print Assumptions C05_pending_example_collision_free_blk.
+Example C05_pending_example_never_wrong :
+  let out := check_run w_hashf w_padz w_truncf 1024 2 false w_newino 999 x_fix px_c px_par px_fs2 [] (seq 0 2) in
+  (out_fail out = true <-> r_unrec (out_st out) <> 0)
+  /\ forall p j f i b, slot_of px_c p j = SFile f i b ->
+       (fl_damaged (get_fl (r_flags (out_st out)) (j, cf_name f)) = true
+        /\ fs_find (r_fs (out_st out)) j (cf_name f) = None /\ In (K_ST_UNREC, [N.of_nat j; cf_name f]) (r_tags (out_st out))
+        /\ r_unrec (out_st out) <> 0 /\ out_fail out = true)
+       \/ (fl_damaged (get_fl (r_flags (out_st out)) (j, cf_name f)) = false
+           /\ (fb_state b <> SChg -> fblk (r_fs (out_st out)) j (cf_name f) i = px_rb p j)
+           /\ (fb_state b = SChg ->
+                 fblk (r_fs (out_st out)) j (cf_name f) i = fblk px_fs2 j (cf_name f) i
+                 \/ exists x, fblk (r_fs (out_st out)) j (cf_name f) i = wbv w_padz w_truncf 1024 f i x
+                              /\ forall l v, nth p (nth l px_par []) PNone = PEnc v -> x <> vnth v j)).
+Proof. exact px_fix_never_wrong. Qed.
+Print Assumptions C05_pending_example_never_wrong.
 Example C05_pending_example_mixed_computed :
   let out := check_run w_hashf w_padz w_truncf 1024 2 false w_newino 999 x_fix px_c px_par px_fs2 [] (seq 0 2) in
   fs_find (r_fs (out_st out)) 0 2%N = Some (mkFF 2 1024 100 0 902 [12%N])
